@@ -29,10 +29,22 @@ type fsMachine struct {
 	File   string
 	Ifaces []string
 	Flags  []string
+	Style  string // how the source dir and -out are spelled: "rel" (both relative), "abs-out", "abs-src"
 }
 
 func (m fsMachine) String() string {
-	return fmt.Sprintf("moq %s -out %s . %s", strings.Join(m.Flags, " "), m.File, strings.Join(m.Ifaces, " "))
+	return fmt.Sprintf("moq %s -out %s . %s  [paths: %s]", strings.Join(m.Flags, " "), m.File, strings.Join(m.Ifaces, " "), m.Style)
+}
+
+// spell returns the -out value and the source-dir argument for a sandbox.
+func (m fsMachine) spell(sb *e5Sandbox) (out, src string) {
+	switch m.Style {
+	case "abs-out":
+		return filepath.Join(sb.pkg, m.File), "."
+	case "abs-src":
+		return m.File, sb.pkg
+	}
+	return m.File, "."
 }
 
 type fsTransition struct {
@@ -87,12 +99,14 @@ func runC15(tier string) int {
 		flagsets = append(flagsets, []string{"-fmt", "goimports"}, []string{"-fmt", "noop", "-skip-ensure"})
 		ifsets = append(ifsets, []string{"G", "E", "B"})
 	}
+	ifsets = append(ifsets, []string{"A", "W"})
 	for _, f := range files {
 		for _, is := range ifsets {
 			for _, fl := range flagsets {
-				machines = append(machines, fsMachine{f, is, fl})
+				machines = append(machines, fsMachine{f, is, fl, "rel"})
 			}
 		}
+		machines = append(machines, fsMachine{f, []string{"A", "B"}, nil, "abs-out"}, fsMachine{f, []string{"A", "B"}, nil, "abs-src"})
 	}
 	var mu sync.Mutex
 	totalStates, totalTrans, cliRuns := 0, 0, 0
@@ -103,7 +117,8 @@ func runC15(tier string) int {
 		pristine := map[int][]byte{}
 		for v := 1; v <= 2; v++ {
 			sb, p := fx.materialise(work, fsState{Kind: "absent", Version: v}, m)
-			args := append(append([]string{}, m.Flags...), "-out", m.File, ".")
+			o, sd := m.spell(sb)
+			args := append(append([]string{}, m.Flags...), "-out", o, sd)
 			r := fx.cli(sb.pkg, false, nil, append(args, m.Ifaces...)...)
 			if r.Exit == 0 {
 				pristine[v], _ = os.ReadFile(p)
@@ -116,7 +131,27 @@ func runC15(tier string) int {
 				return
 			}
 		}
+		// a second command on the same -out path: the same generation with -fmt noop
+		hasFmt := false
+		for _, f := range m.Flags {
+			if f == "-fmt" {
+				hasFmt = true
+			}
+		}
+		pristineNoop := map[int][]byte{}
 		trans := []string{"moq", "moq -rm", "edit:v1", "edit:v2"}
+		if !hasFmt {
+			trans = append(trans, "moq -fmt noop")
+			for v := 1; v <= 2; v++ {
+				sb, p := fx.materialise(work, fsState{Kind: "absent", Version: v}, m)
+				o, sd := m.spell(sb)
+				args := append(append([]string{}, m.Flags...), "-fmt", "noop", "-out", o, sd)
+				if r := fx.cli(sb.pkg, false, nil, append(args, m.Ifaces...)...); r.Exit == 0 {
+					pristineNoop[v], _ = os.ReadFile(p)
+				}
+				sb.remove()
+			}
+		}
 		var cl []string
 		for k := range clobbers {
 			cl = append(cl, k)
@@ -149,16 +184,24 @@ func runC15(tier string) int {
 						ns = fsState{Kind: "file", Content: clobbers[t], Version: nd.st.Version}
 					default: // a real CLI run
 						sb, p := fx.materialise(work, nd.st, m)
-						args := append(append([]string{}, m.Flags...), "-out", m.File)
+						o, sd := m.spell(sb)
+						args := append([]string{}, m.Flags...)
+						if t == "moq -fmt noop" {
+							args = append(args, "-fmt", "noop")
+						}
+						args = append(args, "-out", o)
 						if t == "moq -rm" {
 							args = append(args, "-rm")
 						}
-						args = append(args, ".")
+						args = append(args, sd)
 						r := fx.cli(sb.pkg, false, nil, append(args, m.Ifaces...)...)
 						runs++
 						ns = readState(p, nd.st.Version)
 						sb.remove()
 						want := pristine[nd.st.Version]
+						if t == "moq -fmt noop" {
+							want = pristineNoop[nd.st.Version]
+						}
 						path := append(append([]string{}, nd.path...), t)
 						viol := func(diag, detail string) {
 							mu.Lock()
